@@ -168,12 +168,59 @@ func (fv *FuncVerifier) guardInvoke(st *State, g *guardSrc, method string, pos t
 	fv.addOb(st, "guard", fmt.Sprintf("guard[%s.%s()]@x", g.Field, method), goal, "the callback in "+g.Field+" may only be invoked while holding its lock exclusively (never concurrently)", pos)
 }
 
-// markMapDirty: the content version of the updated map changes (maps are otherwise opaque).
+// markMapDirty: the content version of the updated map changes (map values are otherwise opaque).
 func (fv *FuncVerifier) markMapDirty(st *State, m ssa.Value) {
 	mv := st.get(m)
 	a := st.heapArr("M_content", SArr)
 	nv := fv.enc.fresh("mapver", SInt)
 	st.setHeap("M_content", Store(a, mv.L[0], nv))
+}
+
+// Key presence: mhas(version, key) says whether the map content with that version number holds
+// an entry for the key. Keys are abstracted to integers by mapKey: an integer key is itself, a
+// string key is skey(id, off, len) - the same string value has the same key, nothing is known
+// about different string values (they may or may not have equal contents), which is sound.
+//
+// Presence is also indexed by an "interference epoch" (ghost GH_mepoch): acquiring a lock starts
+// a new epoch, because other goroutines may have changed a guarded map while this one did not
+// hold the lock - so a lookup repeated after re-acquiring a lock is not assumed to give the same
+// answer (the double check in importPackage), while the map's own content version, which only
+// this goroutine's updates change, stays what "unchanged(Region)" compares.
+func (s *State) mhas(ver, key Term) Term {
+	s.enc.declareFun("mhas", []string{"Int", "Int", "Int"}, "Bool")
+	return app(SBool, "mhas", ver, s.heapArr("GH_mepoch", SInt), key)
+}
+
+func (s *State) newMapEpoch() {
+	s.heap["GH_mepoch"] = s.enc.fresh("GH_mepoch", SInt)
+}
+
+func (e *Enc) mapKey(k Value) (Term, bool) {
+	if isString(k.Typ) && len(k.L) == 3 {
+		e.declareFun("skey", []string{"Int", "Int", "Int"}, "Int")
+		return app(SInt, "skey", k.L[0], k.L[1], k.L[2]), true
+	}
+	if len(k.L) == 1 && k.L[0].Sort == SInt && k.Place == nil {
+		return k.L[0], true
+	}
+	return Term{}, false
+}
+
+// mapSetKey: the map's content changes so that key is present (or absent); every other key is
+// as before.
+func (fv *FuncVerifier) mapSetKey(st *State, m ssa.Value, key Term, present bool) {
+	mv := st.get(m)
+	a := st.heapArr("M_content", SArr)
+	ov := Select(a, mv.L[0])
+	nv := fv.enc.fresh("mapver", SInt)
+	st.setHeap("M_content", Store(a, mv.L[0], nv))
+	if present {
+		st.assume(st.mhas(nv, key))
+	} else {
+		st.assume(Not(st.mhas(nv, key)))
+	}
+	j := Term{"j!m", SInt}
+	st.assume(Term{"(forall ((j!m Int)) (! " + Implies(Not(Eq(j, key)), Eq(st.mhas(nv, j), st.mhas(ov, j))).S + " :pattern (" + st.mhas(nv, j).S + ")))", SBool})
 }
 
 func (fv *FuncVerifier) checkLocksAtExit(st *State, retIdx int, pos token.Pos) {}
@@ -331,6 +378,7 @@ func lockNative(doc string, requireState []int64, newState int64, what string) *
 				// acquiring: if this goroutine already held the lock the call would never return
 				// (sync mutexes are not reentrant), so on return it was not held (partial correctness)
 				st.assume(Eq(cur, I(0)))
+				st.newMapEpoch()
 			}
 			st.setHeap(name, Store(la, obj, I(newState)))
 			if newState == 0 {
